@@ -217,6 +217,10 @@ impl Boudot2000RangeProof {
     where
         H: Digest,
     {
+        // F is an element of Z_n: only its reduced representative is accepted
+        if proof_of_s.F < 0 || &proof_of_s.F >= n {
+            return false;
+        }
         Self::verify_same_secret::<H>(
             &proof_of_s.F,
             &proof_of_s.E,
@@ -626,6 +630,11 @@ impl Boudot2000RangeProof {
     {
         if rmax <= rmin {
             panic!("rmin > rmax");
+        }
+
+        // the commitment the proof is about is an element of Z_module: only its reduced representative
+        if self.E < 0 || &self.E >= module {
+            return false;
         }
 
         let T = 2 * (Self::t + Self::l + 1) + ((rmax - rmin).complete().significant_bits());
